@@ -24,6 +24,10 @@ Oracle (independent of spsdk; vf.ref.rom_mbi reads the exported bytes only):
   C01.reexport            parsed object + same keys re-exports identically outside the signature
   C01.config-reload / C01.config-reexport   create_config() -> load -> export, same
   C01.cli-export / C01.cli-parse   the CLI produces what the API produces
+  C01.history-repeat / -export / -structure / -exception   object histories: a second export of the unchanged
+                          object, and the export after ONE member was replaced through its public attribute,
+                          equal the export of a fresh object with the final options (outside ECDSA-random
+                          fields) and the header words describe the bytes
 """
 from __future__ import annotations
 
@@ -348,9 +352,56 @@ def cli_check(case: dict, ob: dict, wd: str) -> list:
 # worker
 
 
+def judge_history(case: dict, ob: dict) -> list:
+    """Object histories: the image after a change through a public attribute must be the image of a
+    fresh object with the final options, and its header must describe it."""
+    from vf.ref.rom_mbi import Reject
+
+    V: list = []
+    t = ob["exp"]["triple"]
+    tag = M.path_tag(t)
+    step = ob["step"]
+    if ob["status"] == "exception":
+        e = ob["error"]
+        return [("C01.history-exception", f"{tag};{step};{e['type']}@{e['where']}", e["msg"])]
+    if ob["status"] != "ok":
+        return V
+    mask = M.VOLATILE if ob["exp"]["facts"]["cert"] == "v21" else ()
+    try:
+        regions = M.rom_read(ob, verify=False, image=ob["fresh"])["regions"]
+    except Reject:
+        regions = []
+    d = M.first_diff(ob["img1"], ob["img1b"], [], masked=()) if not mask else None
+    if mask:
+        try:
+            r1 = M.rom_read({"exp": ob["exp_a"], "image": ob["img1"]}, verify=False)["regions"]
+        except Reject:
+            r1 = []
+        d = M.first_diff(ob["img1"], ob["img1b"], r1, masked=mask)
+    if d:
+        V.append(("C01.history-repeat", f"{tag};{_rk(d[1])}", f"second export of the unchanged object differs at {d[0]:#x}"))
+    d = M.first_diff(ob["fresh"], ob["image"], regions, masked=mask)
+    if d:
+        V.append(("C01.history-export", f"{tag};{step};{_rk(d[1])}",
+                  f"after replacing {M.HISTORY_STEPS[step][1]} the export differs from a fresh object's at {d[0]:#x} ({d[1]})"))
+    try:
+        M.rom_read(ob, verify=False)
+    except Reject as e:
+        V.append(("C01.history-structure", f"{tag};{step};{e.stage}", str(e)))
+    return core.dedupe(V)
+
+
 def w_case(case: dict) -> dict:
     quiet()
     wd = workdir()
+    if "hist" in case:
+        ob = M.execute_history(case, wd, case.get("seed", 0))
+        res = {"viol": judge_history(case, ob), "count": {"history_cases": 1}, "status": ob["status"]}
+        if ob["status"] == "ok":
+            res["distinct"] = [M.stable_token(ob)]
+        elif ob["status"] == "rejected":
+            res["count"]["history_rejected"] = 1
+        return res
     want = tuple(case.get("want", ("parse", "reexport", "config")))
     if M.dev_facts(M.triple(case["fam"], case.get("rev", "latest"), case["tgt"], case["auth"]))["kind"] != "ivt":
         want = ("parse",)  # images without IVT words: build, parse and application round trip only
@@ -442,6 +493,48 @@ def lattice_cases(ctx, classes: dict, k: int, reps: int, lengths: list, groups: 
     return cases
 
 
+ALIGN_LENGTHS = [0x1F4, 0x1F8, 0x1FC, 0x200]  # every residue mod 16 the 4-byte padding allows
+
+
+def alignment_cases(ctx, classes: dict, protected_only: bool = False) -> list:
+    """Parts behind the application (relocation table, TrustZone block) x application length in every
+    residue class mod 16: {custom TrustZone, relocation table, both} on every class representative."""
+    cases = []
+    for key, members in sorted(classes.items()):
+        fam, tgt, auth = members[0]
+        if protected_only and auth not in M.PROTECTED:
+            continue
+        t = M.triple(fam, "latest", tgt, auth)
+        if M.dev_facts(t)["kind"] != "ivt":
+            continue
+        names = {d.name for d in M.dims_for(t).dims}
+        combos = []
+        if "tz" in names and M.tz_spec(fam, "latest"):
+            combos.append({"tz": "custom-bin"})
+        if "reloc" in names:
+            combos.append({"reloc": "2x1,5"})
+        if len(combos) == 2:
+            combos.append({"tz": "custom-bin", "reloc": "2x1,5"})
+        for opts in combos:
+            for L in ALIGN_LENGTHS:
+                cases.append({"fam": fam, "rev": "latest", "tgt": tgt, "auth": auth, "len": L, "content": "seeded",
+                              "opts": opts, "seed": ctx.seed})
+    return cases
+
+
+def history_cases(ctx, classes: dict, protected_only: bool = False) -> list:
+    cases = []
+    for key, members in sorted(classes.items()):
+        fam, tgt, auth = members[0]
+        if protected_only and auth not in M.PROTECTED:
+            continue
+        t = M.triple(fam, "latest", tgt, auth)
+        for step in M.history_steps(t):
+            cases.append({"fam": fam, "rev": "latest", "tgt": tgt, "auth": auth, "len": 0x1F8, "len2": 0x200,
+                          "content": "seeded", "opts": {}, "seed": ctx.seed, "hist": step})
+    return cases
+
+
 def run(ctx) -> None:
     quiet()
     quick = ctx.tier == "quick"
@@ -456,6 +549,10 @@ def run(ctx) -> None:
                 f"{'one representative' if quick else 'up to three representatives'} of every equivalence class; "
                 "CLI binding on every class representative. distinct/non-trivial = SHA-1 of the exported image "
                 "of a case the builder accepted")
+    ctx.rule += ("; alignment family: {custom TrustZone, relocation table, both} x application lengths 0x1F4/0x1F8/0x1FC/0x200 "
+                 "on every class representative; object histories on every class representative: export, export again, "
+                 "replace one member (app, trust_zone, key_store, app_table, hmac_key, cert_block) through its public "
+                 "attribute, export - compared byte for byte with a fresh object loaded with the final options")
     ctx.rule += ("; option dimensions include the source of builder-chosen values: counter IV explicit / omitted in the "
                  "configuration / omitted in the class-constructor API (owned RNG keeps exports reproducible), and the "
                  "API used to hand over the settings (load_from_config / class constructor)")
@@ -513,6 +610,16 @@ def run(ctx) -> None:
     if done < len(lc):
         ctx.cov["lattice_cases_planned"] = len(lc)
     for c in lc[:2] + lc[-2:]:
+        ctx.sample(c)
+    # ---- A: alignment of the parts behind the application; H: object histories ---------------------
+    ac = alignment_cases(ctx, classes)
+    for case, res in ctx.pool_map(w_case, ac, timeout=60, chunksize=4, check_det=0):
+        ctx.absorb(case, res)
+    ctx.count("alignment_cases", len(ac))
+    hc = history_cases(ctx, classes)
+    for case, res in ctx.pool_map(w_case, hc, timeout=120, chunksize=2, check_det=0):
+        ctx.absorb(case, res)
+    for c in ac[:1] + hc[:2]:
         ctx.sample(c)
     # ---- C: CLI binding ------------------------------------------------------------------------
     cc = []
